@@ -132,6 +132,9 @@ func (c *Ctx) zeroOfSort(s Sort, t types.Type) string {
 		return c.strLit("")
 	case s == "Iface":
 		return "(mkI 0 0)"
+	case isSliceSort(s):
+		el := sliceElemSort(s)
+		return mkSl(s, "0", "0", c.constArr("Int", el, c.zeroOfSort(el, nil)), "true")
 	}
 	n := "zero!" + mangle(s)
 	c.ensureSort(s)
